@@ -8,7 +8,7 @@ deviations; children of a vector add one deviation at a later point, so each vec
 import multiprocessing
 import os
 
-from vf.core import HarnessError, JobTimeout, Partial, _Guard, _WorkerFailure, bounded_imap
+from vf.core import AbortRun, HarnessError, JobTimeout, Partial, _Guard, _WorkerFailure, bounded_imap
 
 EXEC_LIMIT = float(os.environ.get('VF_EXEC_LIMIT', '900'))
 
@@ -109,7 +109,7 @@ def explore(ck, exec_fn, configs, bound, child_filter=None, max_execs=None, chun
                                  'reached any more)' % (cfg, devs, chunksize - 1, EXEC_LIMIT),
                                  {'part': 'hang', 'config_index': ci, 'devs': [list(d) for d in devs]})
                     hung = True
-                    break
+                    raise AbortRun()
                 if isinstance(r, _WorkerFailure):
                     raise HarnessError('worker failed:\n' + r.text)
                 ci, part, kids, npts = r
@@ -129,8 +129,14 @@ def explore(ck, exec_fn, configs, bound, child_filter=None, max_execs=None, chun
             per_level.append(len(level))
             level = nxt
             completed = depth
-    finally:
+    except AbortRun:
+        raise               # workers are busy for good: the pool is left alone, run.py ends the process
+    except BaseException:
         if pool:
             pool.terminate()
             pool.join()
+        raise
+    if pool:
+        pool.terminate()    # every result has been consumed: the workers are idle
+        pool.join()
     return {'executions': total, 'per_level': per_level, 'bound_completed': completed}
